@@ -41,11 +41,13 @@ const (
 	wConv
 	wReadBack
 	wMeta
+	wConvShared
+	wAppendSrcOwn
 	numWriterOps
 )
 
-var writerSites = [numWriterOps]int{sWrSet, sWrWrite, sWrStriped, sWrChannel, sWrConv, sWrRead, sRdMeta}
-var writerOpNames = [numWriterOps]string{"SetSample", "Write", "WriteStriped", "Channel(c).SetSample", "conversion-into", "read back own range", "meta of parent"}
+var writerSites = [numWriterOps]int{sWrSet, sWrWrite, sWrStriped, sWrChannel, sWrConv, sWrRead, sRdMeta, sWrConv, sRdAppendSrc}
+var writerOpNames = [numWriterOps]string{"SetSample", "Write", "WriteStriped", "Channel(c).SetSample", "conversion-into", "read back own range", "meta of parent", "conversion from a read-only window of the shared buffer into own window", "private.Append(own window)"}
 
 type shareOp struct {
 	kind    int
@@ -53,10 +55,11 @@ type shareOp struct {
 }
 
 type shareTask struct {
-	role       int
-	start, end int  // frame range inside the shared buffer: a writer's own range, or the reader's read-only window
-	whole      bool // reader works on the shared parent itself (readers-only scenario)
-	ops        []shareOp
+	role           int
+	start, end     int  // frame range inside the shared buffer: a writer's own range, or the reader's read-only window
+	whole          bool // reader works on the shared parent itself (readers-only scenario)
+	roStart, roEnd int  // writers in mixed runs: a read-only range of the shared buffer they may read
+	ops            []shareOp
 }
 
 type shareProgram struct {
@@ -164,6 +167,9 @@ func drawShareProgram(prog *simrt.Stream, b Bounds) *shareProgram {
 			at += w
 			if t.role == roleReader {
 				roSegs = append(roSegs, [2]int{t.start, t.end})
+			} else if len(roSegs) > 0 {
+				seg := roSegs[prog.Draw(len(roSegs))]
+				t.roStart, t.roEnd = seg[0], seg[1]
 			}
 		}
 		for k := 0; k < 12; k++ {
@@ -292,7 +298,7 @@ func (h *H[T]) readerOp(d *uint64, parent, view *signal.Buffer[T], op shareOp) {
 }
 
 // writerOp executes one operation confined to own (the writer's frame range).
-func (h *H[T]) writerOp(d *uint64, parent, own *signal.Buffer[T], op shareOp) {
+func (h *H[T]) writerOp(d *uint64, parent, own, ro *signal.Buffer[T], op shareOp) {
 	c := own.Channels()
 	switch op.kind {
 	case wSet:
@@ -332,6 +338,15 @@ func (h *H[T]) writerOp(d *uint64, parent, own *signal.Buffer[T], op shareOp) {
 			mix64(d, bitsOf(own.Sample(i)))
 		}
 		mix64(d, uint64(own.Length()))
+	case wConvShared:
+		// source: a range of the shared buffer nobody writes; destination: own range
+		if ro != nil {
+			mix64(d, uint64(h.convSame(ro, own)))
+		}
+	case wAppendSrcOwn:
+		priv := signal.Alloc[T](signal.Allocator{Channels: c, Length: 0, Capacity: int(op.a) % (own.Length() + 2)})
+		priv.Append(own)
+		foldBuffer(d, priv)
 	case wMeta:
 		// header reads of the shared parent while others work
 		mix64(d, uint64(parent.Len()))
@@ -363,9 +378,13 @@ func (h *H[T]) execShare(p *shareProgram, sim *simrt.Sim, label string) *shareRe
 			// Every task obtains its own view itself: a concurrent read of the
 			// shared parent's header.
 			view := shared
+			var ro *signal.Buffer[T]
 			if !pt.whole {
 				t.Yield(sWrSlice)
 				view = shared.Slice(pt.start, pt.end)
+				if pt.role == roleWriter && pt.roEnd > pt.roStart {
+					ro = shared.Slice(pt.roStart, pt.roEnd)
+				}
 			}
 			for k := range pt.ops {
 				op := pt.ops[k]
@@ -387,7 +406,7 @@ func (h *H[T]) execShare(p *shareProgram, sim *simrt.Sim, label string) *shareRe
 					if pt.role == roleReader {
 						h.readerOp(&d, shared, view, op)
 					} else {
-						h.writerOp(&d, shared, view, op)
+						h.writerOp(&d, shared, view, ro, op)
 					}
 				}()
 				digs = append(digs, d)
@@ -446,7 +465,12 @@ func (h *H[T]) C19(rc *runCtx) *Violation {
 	seqSim.Strategy = simrt.StratSequential
 	seqSim.MaxSteps = sim.MaxSteps
 	seqSim.SiteNames = sim.SiteNames
+	seqSim.Tracing = sim.Tracing
 	seq := h.execShare(p, seqSim, "seq")
+	if sim.Tracing {
+		rc.extraTrace = append([]string{"--- reference: the same program, task after task ---"}, seqSim.RenderTrace()...)
+		rc.extraTrace = append(rc.extraTrace, "--- the same program under the drawn schedule ---")
+	}
 	conc := h.execShare(p, sim, "conc")
 
 	for _, t := range p.tasks {
